@@ -152,7 +152,12 @@ def run_case(rep, cfg):
     def fn(c):
         if rt.endswith('rel'):
             c.add(z3.Or([x != 0 for x in xs]))
-        ctl, A, uend, stats, _ = wr.run_symbolic(c, cfg, xs)
+        from pySDC.core.errors import CommunicationError, ControllerError, UnlockError
+
+        try:
+            ctl, A, uend, stats, _ = wr.run_symbolic(c, cfg, xs)
+        except (CommunicationError, ControllerError, UnlockError) as e:
+            return dict(exc=f'{type(e).__name__}: {e}')
         L = ctl.MS[0].levels[0]
         posts = [s for s in wr.LOG if s['ev'] == 'post_step']
         copy_mode = bool(L.sweep.coll.right_is_node and not L.sweep.params.do_coll_update)
@@ -175,6 +180,22 @@ def run_case(rep, cfg):
     for i, p in enumerate(paths):
         r = p.result
         A_ = pre + list(p.assume) + list(p.pc)
+        if r.get('exc'):
+            # the real controller raises one of its own errors on a feasible path of a valid configuration: confirm on the float classes
+            rep.ob(f'{name}/path{i}:run-completes', 'sat')
+            res, m = satisfiable(A_, name=f'{name}/path{i}:exception-witness')
+            rep.replayed += 1
+            cands = ([[float(model_value(m, v)) for v in xs]] if res == 'sat' else []) + [[c_] * n for c_ in (1.0, -1.0, 0.5, -0.25, 0.75)]
+            for x in cands:
+                try:
+                    float_reference(cfg, x)
+                except Exception as e:
+                    rep.violation(f'{PID}/run-raises/{cfg["sweeper"]}/{"ml" if len(cfg["M"]) > 1 else "sl"}', f'{name}: x={x}: the real float run raises {type(e).__name__}: {e}',
+                                  {'task': ['run'], 'cfg': cfg, 'x': x, 'violated': [['run-raises', type(e).__name__]]})
+                    break
+            else:
+                rep.unreproduced(f'{name}/path{i}:run-completes', r['exc'])
+            continue
         Q, A = r['Q'], r['A']
         M = Q.shape[0] - 1
         cst = coll_constant(Q, A, cfg['dt'], r['w'])
@@ -305,7 +326,12 @@ def replay(path):
 
     logging.disable(logging.CRITICAL)
     d = json.load(open(path))['replay']
-    steps, uend, cst = float_reference(d['cfg'], d['x'])
+    try:
+        steps, uend, cst = float_reference(d['cfg'], d['x'])
+    except Exception as e:
+        print('the real float run raises', type(e).__name__, e)
+        print('REPRODUCED')
+        return 1
     bad = False
     for k, s in enumerate(steps):
         dev = float(np.abs(s['uend'] - s['coll']).max())
